@@ -267,23 +267,45 @@ def local_slice_names(ctx: Ctx, f: Func, expr: ast.AST) -> Slice:
 
 
 def find_api_functions(ctx: Ctx) -> Tuple[Func, Func]:
-    """(top-level evaluation function, nested-branch function) of dds._api, found by role."""
+    """(top-level evaluation function, nested-branch function) of dds._api, found by role:
+    both call the user's function; the top-level one is the one that SETS the evaluation-context global."""
     m = ctx.prog.module("dds._api")
+    g = ctx_global_name(ctx)
     top: Optional[Func] = None
     nested: Optional[Func] = None
     for f in m.funcs.values():
         if not user_calls(f):
             continue
-        has_sync = any(isinstance(n, ast.Attribute) and n.attr == "sync_paths" for n in f.own_nodes())
-        if has_sync:
+        sets = any(
+            isinstance(n, ast.Assign) and any(isinstance(t, ast.Name) and t.id == g for t in n.targets)
+            and not (isinstance(n.value, ast.Constant) and n.value.value is None)
+            for n in f.own_nodes()
+        ) and any(isinstance(n, ast.Global) and g in n.names for n in f.own_nodes())
+        if sets:
             top = f
         else:
             nested = f
     if top is None:
-        raise AnchorError("role top-level-evaluation (user call + sync_paths in dds._api) not found")
+        raise AnchorError("role top-level-evaluation (user call + context set in dds._api) not found")
     if nested is None:
-        raise AnchorError("role nested-evaluation (user call without sync_paths in dds._api) not found")
+        raise AnchorError("role nested-evaluation (user call without context set in dds._api) not found")
     return top, nested
+
+
+def stray_store_calls(ctx: Ctx, names: Iterable[str], allowed: Iterable[Func]) -> List[Tuple[Func, ast.Call]]:
+    """Calls of the given Store methods outside the allowed functions and outside Store implementations
+    (a wrapper store delegating to the wrapped store is not a stray call)."""
+    allowed_q = {f.qname for f in allowed}
+    out: List[Tuple[Func, ast.Call]] = []
+    for f in ctx.prog.funcs.values():
+        if f.qname in allowed_q:
+            continue
+        c = f_cls(f)
+        if c is not None and (c.qname == STORE_IFACE or STORE_IFACE in ctx.prog.all_bases(c.qname)):
+            continue
+        for call in store_calls(ctx, f, names):
+            out.append((f, call))
+    return out
 
 
 def ctx_global_name(ctx: Ctx) -> str:
